@@ -55,7 +55,7 @@ func (x *fnv) bindLocals(env *specEnv, lp *loopCtx) {
 	env.lp = lp
 	env.pos = x.curPos
 	for n, v := range x.paramVals {
-		if strings.HasPrefix(n, "arg") && v.T != nil {
+		if (strings.HasPrefix(n, "arg") || strings.HasPrefix(n, "param")) && v.T != nil {
 			if _, ok := env.vars[n]; !ok {
 				env.vars[n] = v
 			}
